@@ -37,7 +37,7 @@ class LoopMixin:
             if v is None:
                 h.env.pop(n, None)
                 continue
-            t = (spec.locals.get(n) if spec else None) or (self.c.locals.get(n) if self.c else None)
+            t = (spec.locals.get(n) if spec else None) or (self.c.locals.get(n) if self.c else None) or (self.c.ghost_vars[n][0] if self.c and n in self.c.ghost_vars else None)
             if t is None:
                 t = v.ty
             if t is PYOBJ:
@@ -70,6 +70,19 @@ class LoopMixin:
                 raise ContractMisfit(f"internal: loop at line {node.lineno} writes heap field {k} which was not havocked")
             if b is None and not arr.decl().name().startswith("H0_"):
                 raise ContractMisfit(f"internal: loop at line {node.lineno} writes heap field {k} which was not havocked")
+
+    def ghost_assigned(self, body):
+        out = set()
+        if not (self.c and self.c.ghost):
+            return out
+        for top in body:
+            for n in ast.walk(top):
+                if isinstance(n, ast.stmt):
+                    g = self.c.ghost.get(ast.unparse(n).split("\n")[0])
+                    if g:
+                        for src in g:
+                            out |= assigned_names(ast.parse(src).body)[0]
+        return out
 
     def callee_effects(self, calls, st):
         """names/fields modified through contract calls inside a loop body."""
@@ -145,6 +158,7 @@ class LoopMixin:
         if spec is None:
             spec = api.Loop()
         names, fields, calls = assigned_names(node.body)
+        names |= self.ghost_assigned(node.body)
         tn, _, _ = assigned_names([ast.Assign(targets=[node.target], value=ast.Constant(0))])
         cn, cf = self.callee_effects(calls, st)
         names |= cn
@@ -267,6 +281,7 @@ class LoopMixin:
         if spec is None:
             spec = api.Loop()
         names, fields, calls = assigned_names(node.body)
+        names |= self.ghost_assigned(node.body)
         cn, cf = self.callee_effects(calls, st)
         names |= cn
         fields |= cf
@@ -420,6 +435,13 @@ class LoopMixin:
             st.assume(z3bool(self.clause(r, st)))
         # vacuity guard: the precondition must be satisfiable
         self.oblige(st, z3.BoolVal(False), "cover", "requires-satisfiable", fdef, expect_fail=True)
+        self._ghost_seen = set()
+        for gname, (gty, ginit) in c.ghost_vars.items():
+            if gname in st.env or gname in pnames:
+                raise ContractMisfit(f"ghost variable '{gname}' clashes with a program variable")
+            self.spec_mode = True
+            st.env[gname] = coerce(self.eval(ast.parse(ginit, mode="eval").body, st), gty)
+            self.spec_mode = False
         old = st.copy()
         self.old_state = None
         rebound = {n for n in assigned_names(fdef.body)[0]}
@@ -464,6 +486,9 @@ class LoopMixin:
                     o_.pc = s2.pc
                     self.oblige(s2, self.clause(c.raises[o.exc], o_), "raises", f"{o.exc}@L{ln}", None, info={"clause": c.raises[o.exc]})
             self.old_state = None
+        for g in c.ghost:
+            if g not in self._ghost_seen:
+                raise ContractMisfit(f"{c.key}: ghost update is attached to a statement that no longer exists: '{g}'")
         for h in c.loops:
             if h not in self._loops_seen:
                 raise ContractMisfit(f"{c.key}: loop contract '{h}' matches no loop in the function")
